@@ -120,8 +120,11 @@ def run(ck):
             continue
         built, hx, loaded, hx2 = pa
         dist['bytes_serialised'] += len(hx) // 2
-        ns = loaded.split('|')[1].split()
-        dist['sections_hist'][len(ns) - 1] = dist['sections_hist'].get(len(ns) - 1, 0) + 1
+        if loaded == 'NULL':
+            dist['refused_after_serialize'] = dist.get('refused_after_serialize', 0) + 1
+        else:
+            ns = loaded.split('|')[1].split()
+            dist['sections_hist'][len(ns) - 1] = dist['sections_hist'].get(len(ns) - 1, 0) + 1
         ss = [t[2:] for t in dsc.split(' ; ') if t.startswith('s ')]
         if len(set(ss)) != len(ss): dist['with_dup_strings'] += 1
         if ' null' in dsc: dist['with_null_params'] += 1
